@@ -21,6 +21,10 @@ def prop(line, impl, model):
     if impl.startswith("!panic") or impl == "!died":
         return "implementation panicked/died: " + impl[:200]
     try:
+        if op == "ipc":
+            if impl.startswith("!"):
+                return None
+            return prop_ipc(line, impl)
         if op == "bin":
             n, v = int(a[2]), int(impl)
             if not (n <= v < n + 8 and v % 8 == 0):
@@ -49,9 +53,197 @@ def prop(line, impl, model):
     return None
 
 
+# ---------------------------------------------------------------- ipc op sequences
+def spec_ipc(ops):
+    """The property's own reading of an op sequence: true counts per period, distinct addresses per
+    normalised type, cumulative label counts. Returns (list of per-print dicts, prom dict)."""
+    ev = dict.fromkeys(["idle", "with", "without", "rejected", "denied", "rdenied", "udenied", "matched"], 0)
+    sets = {u: set() for u in range(5)}
+    prom = {}
+    reports = []
+    def bump(k):
+        prom[k] = prom.get(k, 0) + 1
+    for o in ops:
+        f = o.split(",")
+        if f[0] == "pp":
+            t, n, relay, out = int(f[3]), int(f[4]), f[5] == "1", f[6]
+            u = t if t < 4 else 4
+            ev["with" if relay else "without"] += 1
+            bump("%s.%d.%d" % ("wr" if relay else "wo", n, u))
+            if out == "r":
+                ev["rejected"] += 1
+                bump("rj.%d.%d" % (n, u))
+                continue
+            if f[1] != "-":
+                sets[u].add(f[1])
+            if out == "i":
+                ev["idle"] += 1
+                bump("pp.%d.0" % n)
+            else:
+                bump("pp.%d.1" % n)
+        elif f[0] == "cd":
+            n = int(f[1])
+            ev["denied"] += 1
+            ev["udenied" if n == 2 else "rdenied"] += 1
+            bump("cp.%d.0" % n)
+        elif f[0] == "cm":
+            ev["matched"] += 1
+            bump("cp.%d.1" % int(f[1]))
+        elif f[0] == "pr":
+            r = {k: bin8(v) for k, v in ev.items()}
+            for u in range(4):
+                r["ips.%d" % u] = len(sets[u])
+            r["ips.total"] = sum(len(x) for x in sets.values())
+            reports.append(r)
+        elif f[0] == "ze":
+            for k in ev:
+                ev[k] = 0
+            sets = {u: set() for u in range(5)}
+    return reports, {k: bin8(v) for k, v in prom.items()}
+
+
+def parse_items(s):
+    if s == "-":
+        return {}
+    return dict(x.rsplit(":", 1) for x in s.split(","))
+
+
+def prop_ipc(line, impl):
+    a = line.split(" ")
+    ops = a[3].split(";") if a[3] != "-" else []
+    want_reports, want_prom = spec_ipc(ops)
+    d = kv(impl)
+    got_reports = [parse_items(x) for x in d["reports"].split("/")] if d["reports"] != "-" else []
+    if len(got_reports) != len(want_reports):
+        return "printMetrics was called %d times but %d reports were read" % (len(want_reports), len(got_reports))
+    for i, (w, g) in enumerate(zip(want_reports, got_reports)):
+        for k, v in w.items():
+            if g.get(k) != str(v):
+                what = "unique-address figure" if k.startswith("ips") else "rounded log count"
+                return "%s `%s` in report %d is %s; the true figure is %d" % (what, k, i + 1, g.get(k), v)
+    got_prom = parse_items(d["prom"])
+    for k, v in want_prom.items():
+        if got_prom.get(k) != str(v):
+            return "rounded prometheus counter %s publishes %s; true count rounded up to 8 is %d" % (k, got_prom.get(k), v)
+    for k, v in got_prom.items():
+        if k not in want_prom and v != "0":
+            return "rounded prometheus counter %s publishes %s but no such event happened" % (k, v)
+    return None
+
+
+def key_ipc(line, impl):
+    p = prop_ipc(line, impl) or ""
+    if "unique-address" in p:
+        return "unique-address-count"
+    if "rounded log count" in p:
+        return "log-count-rounding"
+    if "prometheus" in p:
+        return "prometheus-count-rounding"
+    return "ipc"
+
+
+def geo_table():
+    """addresses with the country the repo's test geoip files give them (computed here from those files;
+    a wrong entry shows up as a model/implementation disagreement, never as a silent pass)"""
+    import ipaddress
+    tab = []
+    rows = [l.strip().split(",") for l in open(os.path.join(vlib.REPO, "broker", "test_geoip")) if l[0].isdigit()]
+    for i in (0, 7, 101, 333, 600, 900, 1200):
+        if i < len(rows):
+            lo, hi, c = rows[i]
+            tab.append((str(ipaddress.IPv4Address(int(lo))), c))
+            tab.append((str(ipaddress.IPv4Address(int(hi))), c))
+    rows6 = [l.strip().split(",") for l in open(os.path.join(vlib.REPO, "broker", "test_geoip6")) if l[0] not in "#\n"]
+    for i in (3, 200, 500):
+        if i < len(rows6):
+            tab.append((str(ipaddress.IPv6Address(rows6[i][0])), rows6[i][2]))
+    tab.append(("129.97.208.23", "CA"))
+    return tab
+
+
+def gen_ipc(ctx):
+    rng = ctx.rng
+    thorough = ctx.tier == "thorough"
+    tab = geo_table()
+    lines, kinds = [], []
+    def add(geo, ops, k):
+        lines.append("%s ipc %d %s" % (AREA, geo, ";".join(ops) if ops else "-")); kinds.append(k)
+    def poll(out, addr=None, t=None, n=None, relay=None):
+        a, c = addr if addr else rng.choice(tab[:6] if rng.random() < 0.7 else tab)
+        if addr is None and rng.random() < 0.1:
+            a, c = "-", "-"
+        t = rng.choice([0, 0, 1, 2, 3, 4, 5, 6]) if t is None else t
+        n = rng.randrange(3) if n is None else n
+        relay = rng.randrange(2) if relay is None else relay
+        return "pp,%s,%s,%d,%d,%d,%s" % (a, c, t, n, relay, out)
+    def matched_pair(timeout=False):
+        n = rng.randrange(3)
+        cn = 2 if n in (0, 1) else rng.choice([0, 1])
+        return [poll("m", n=n), ("ct,%d" if timeout else "cm,%d") % cn]
+    # exhaustive: all sequences of <= 3 fast ops over a small alphabet, one report at the end
+    alpha = [["pb"], ["pp,1.2.3.4,US,0,1,1,r"], ["pp,1.2.3.4,US,0,1,1,m", "cm,2"], ["pp,1.2.3.4,US,5,2,0,m", "cm,0"],
+             ["pp,1.2.3.4,US,6,0,0,m", "cm,2"], ["pp,129.97.208.23,CA,0,2,1,m", "cm,1"], ["cd,2"], ["cd,1"], ["ze"]]
+    seqs = [[]]
+    for depth in range(3 if not thorough else 4):
+        seqs = seqs + [sq + [x] for sq in seqs if len(sq) == depth for x in alpha]
+    for sq in seqs:
+        add(1, [o for x in sq for o in x] + ["pr"], "ipc-exhaustive-small")
+    # counts across the multiples of 8
+    for unit in alpha[1:8]:
+        for k in list(range(6, 11)) + [15, 16, 17, 24, 25]:
+            add(1, [o for _ in range(k) for o in unit] + ["pr"], "ipc-count-boundary")
+    # random periods, fast ops only
+    for _ in range(150 if not thorough else 1500):
+        ops = []
+        for _period in range(rng.randrange(1, 4)):
+            for _ in range(rng.choice([0, 1, 3, 7, 8, 9, 12, 20])):
+                r = rng.random()
+                if r < 0.3:
+                    ops += matched_pair()
+                elif r < 0.5:
+                    ops.append(poll("r"))
+                elif r < 0.8:
+                    ops.append("cd,%d" % rng.randrange(3))
+                elif r < 0.85:
+                    ops.append("pb")
+                else:
+                    ops += matched_pair()
+            ops.append("pr")
+            if rng.random() < 0.7:
+                ops.append("ze")
+        add(rng.choice([1, 1, 0]), ops, "ipc-random-fast")
+    # same address under several types / several unknown types / repeated; nat of first sighting
+    a = tab[0]
+    for ts in ([0, 0], [0, 1], [4, 5], [5, 6], [0, 4, 5, 0], [3, 3, 2, 6]):
+        ops = []
+        for t in ts:
+            n = rng.randrange(3)
+            ops += [poll("m", addr=a, t=t, n=n), "cm,%d" % (2 if n in (0, 1) else 0)]
+        add(1, ops + ["pr", "ze", "pr"], "ipc-unique-addresses")
+    # slow cases: idle polls (10 s broker timeout) and client timeouts, placed just before a report
+    for _ in range(10 if not thorough else 60):
+        ops = []
+        for _ in range(rng.choice([0, 2, 5])):
+            ops += matched_pair() if rng.random() < 0.5 else ["cd,%d" % rng.randrange(3)]
+        if rng.random() < 0.4:
+            ops += matched_pair(timeout=True)
+        for _ in range(rng.choice([1, 2, 7, 8, 9, 17])):
+            ops.append(poll("i"))
+        ops.append("pr")
+        if thorough and rng.random() < 0.5:
+            ops += ["ze"] + [poll("i") for _ in range(rng.choice([1, 8, 9]))] + ["pr"]
+        add(1, ops, "ipc-idle-and-timeouts")
+    return lines, kinds
+
+
 def key_of(line, impl, model):
     a = line.split(" ")
     op = a[1]
+    if op == "ipc":
+        try:
+            return key_ipc(line, impl)
+        except (ValueError, KeyError, IndexError):
+            return "ipc"
     if op in ("conc", "race"):
         return "rounded-counter-concurrent-inc"
     if op == "inc":
@@ -90,11 +282,15 @@ def run(ctx):
     ctx.assumptions += ["models = coq/Model/Round8.v, Metrics.v, Journal.v (hand written); tie = correspondence on generated cases"]
     lines, kinds = gen_round8(ctx)
     ctx.correspond(exe, lines, kinds, label="round8", prop=prop, key_of=key_of, impl_args=DRV_ARGS)
+    os.environ["VERIF_C19_GEOIP_DIR"] = os.path.join(vlib.REPO, "broker")
+    lines, kinds = gen_ipc(ctx)
+    ctx.correspond(exe, lines, kinds, label="broker-ipc-metrics", prop=prop, key_of=key_of, impl_args=DRV_ARGS)
 
 
 def replay(ctx, doc):
     os.environ["VERIF_DRIVER"] = "1"
     exe = vlib.go_test_build("./broker", name="broker_c19.test")
+    os.environ["VERIF_C19_GEOIP_DIR"] = os.path.join(vlib.REPO, "broker")
     bad = 0
     for v in doc.get("violations", []):
         case = v["replay"].get("case")
